@@ -96,7 +96,7 @@ class FilterExpression(Expression):
         if isinstance(expression, PrefixExpression):
             operand = self._canonical_string(expression.right, PRECEDENCE_PREFIX)
             expr = f"!{operand}"
-            return f"({expr})" if parent_precedence > PRECEDENCE_PREFIX else expr
+            return f"({expr})" if parent_precedence >= PRECEDENCE_PREFIX else expr
 
         if isinstance(expression, ComparisonExpression):
             expr = str(expression)
@@ -180,8 +180,9 @@ class PrefixExpression(Expression):
         super().__init__(token)
 
     def __str__(self) -> str:
-        if isinstance(self.right, ComparisonExpression):
-            # '!' binds more tightly than a comparison operator.
+        if isinstance(self.right, (ComparisonExpression, PrefixExpression)):
+            # '!' binds more tightly than a comparison operator, and '!!' is
+            # not allowed.
             return f"{self.operator}({self.right})"
         return f"{self.operator}{self.right}"
 
